@@ -151,16 +151,20 @@ int main(int argc, char **argv) {
     if (!strncmp(sc, "growth", 6)) {
       /* growth | growthfit:<chunk>:<lead> | growthcount:<chunk>:<lead>
          <lead> nops, then 2600 ten-byte instructions: crosses the 6000-byte growth step four times */
-      int chunk = 0, lead = 0, counting = 0;
+      int chunk = 0, lead = 0, counting = 0, bigrun = 0;
       if (sscanf(sc, "growthfit:%d:%d", &chunk, &lead) == 2) counting = 0;
       else if (sscanf(sc, "growthcount:%d:%d", &chunk, &lead) == 2) counting = 1;
+      /* growthbigfit:<chunk> / growthbigcount:<chunk>: the whole 2600-instruction program in ONE fitting / counting call, so that
+         a later growth of the same call can be refused after earlier ones succeeded (and moved the mapping) */
+      else if (sscanf(sc, "growthbigfit:%d", &chunk) == 1) { counting = 0; bigrun = 1; }
+      else if (sscanf(sc, "growthbigcount:%d", &chunk) == 1) { counting = 1; bigrun = 1; }
       /* with a chunk size: start just below the first growth threshold (asm_set_offset) so that every alignment of the
          instruction stream relative to the threshold can be tried cheaply; 40 ten-byte instructions cross it */
-      size_t n = chunk ? 40 : 2600;
+      size_t n = (chunk && !bigrun) ? 40 : 2600;
       char *big = __real_malloc(n * 32 + 1);
       big[0] = 0;
       char *w = big;
-      if (chunk) asm_set_offset(al, 5900 + lead);
+      if (chunk && !bigrun) asm_set_offset(al, 5900 + lead);
       for (size_t i = 0; i < n; i++) w += sprintf(w, "mov rdx, 0x1122334455667788\n");
       int rc2, cnt = -7;
       printf("offb=%d\n", asm_get_offset(al));
